@@ -55,6 +55,7 @@ def plan(tier, seed):
     pairs = [("val_%d" % r["id"], r["reaction"]) for r in rows]
     pairs += G.deletions(rng, 80 if q else 1200) + G.redox_family(rng, 34 if q else 300)
     pairs += G.ionic_balanced(rng, 20 if q else 200) + G.marker_collisions(rng, 30 if q else 300)
+    pairs += G.h2_on_reactant_side(rng, 40 if q else 400)
     pairs += [(t, rx) for t, rx in G.balanced_corpus()[: (60 if q else 1500)]]
     rng.shuffle(pairs)
     return [{"bases": c, "k": 6 if q else 10} for c in common.stripe(pairs, 16 if q else 48)]
